@@ -174,6 +174,35 @@ def c02(res, tier, seed):
             bufs = [plant_buffer(r, ast, filler, maxbuf) for _ in range(nb)] + [b"", sample(r, ast, filler)[:maxbuf]]
             groups.append({"src": src, "bufs": bufs})
             metas.append((txt, ast))
+        # chains of three and more fixed-length pieces with several candidate heads / middles / tails at distances around the bounds
+        for pi in range(max(12, npat // 8)):
+            npieces = r.choice([3, 3, 4])
+            lits = r.sample([0x11, 0x22, 0x33, 0x44, 0x55, 0x66, 0x77, 0x88, 0x99, 0xaa, 0xbb, 0xcc], 2 * npieces)
+            pieces = [[lits[2 * k], lits[2 * k + 1]] + ([r.choice(lits)] if r.random() < 0.5 else []) for k in range(npieces)]
+            jumps = []
+            for k in range(npieces - 1):
+                lo = r.choice([0, 1, thresh - 1]); hi = thresh + r.choice([1, 2, 4, 30 if thresh > 10 else 3])
+                jumps.append((lo, hi))
+            toks, nodes = [], []
+            for k, pc in enumerate(pieces):
+                toks += ["%02X" % b for b in pc]; nodes += [lit(b) for b in pc]
+                if k < npieces - 1:
+                    toks.append("[%d-%d]" % jumps[k]); nodes.append(gap(*jumps[k]))
+            txt, ast = " ".join(toks), cat(nodes)
+            src = "rule t { strings: $s = { %s } condition: #s >= 0 }" % txt
+            bufs = []
+            for _ in range(8):
+                b = bytes(r.choice([0x00, 0x7a]) for _ in range(r.randint(0, 3)))
+                for k, pc in enumerate(pieces):
+                    reps = r.choice([1, 1, 2, 2, 3])          # several candidates for this piece
+                    for q in range(reps):
+                        b += bytes(pc)
+                        lo, hi = jumps[min(k, npieces - 2)]
+                        d = r.choice([lo, hi, hi + 1, max(0, lo - 1), (lo + hi) // 2, hi - len(pc), hi + len(pc)])
+                        b += bytes(0x7a for _ in range(max(0, d)))
+                bufs.append(b[:maxbuf * 3])
+            groups.append({"src": src, "bufs": bufs})
+            metas.append((txt, ast))
         records, owners = [], []
         skipped = 0
         scan_errors = {}
